@@ -75,7 +75,7 @@ func cmpPair(c *ev.Ctx, a, b string, an, bn verifhooks.Number, ad, bd decimal.De
 func reportParse(c *ev.Ctx, s string) {
 	red := ev.Reduce(s, numeralCands, func(t string) bool {
 		_, err := newNumber(t)
-		return err != nil
+		return err != nil && zeroMantissaExp(t) == zeroMantissaExp(s)
 	})
 	_, err := newNumber(red)
 	c.Violate("parse;"+red, fmt.Sprintf("NewNumber(%q) fails on an RFC 8259 numeral: %v", red, err), caseT{Kind: "parse", A: red})
